@@ -723,6 +723,20 @@ pub mod verif {
         }
     }
 
+    /// Delivers a `PartitionSyncResponse` (the coordinator's answer to a catch-up request) to the
+    /// replicator: `Some(commits)` = `Ok(commits)`, `None` = a failed request.  Returns whether
+    /// the message was enqueued.
+    pub async fn verif_sync_response(
+        replicator: &ActorRef<PartitionReplicatorActor>,
+        commits: Option<Vec<CommittedEvents>>,
+    ) -> bool {
+        let result = commits.ok_or(failsafe::Error::Rejected);
+        replicator
+            .tell(PartitionSyncResponse { result })
+            .await
+            .is_ok()
+    }
+
     impl Message<Probe> for PartitionReplicatorActor {
         type Reply = BufferState;
 
